@@ -4,11 +4,28 @@
 # Counted packages: the harness main package (required, otherwise no counters are registered), the
 # calibration package, every library package, and the standard-library packages in which the library
 # spends its time (so that cost hidden in strings/regexp/fmt/... is counted deterministically too).
-# $GOFLAGS (may contain -overlay=...) is honoured because `go build` reads it from the environment.
+#
+# $GOFLAGS may contain -overlay=<file> (VERIF_OVERLAY).  `go build -cover` ignores overlay
+# replacements of the files it instruments (it passes the on-disk path to cmd/cover), so the
+# replacements under /repo are materialised in a scratch copy of the library (checks/c20/ovtree)
+# and the build is pointed at that copy with -modfile.  Without an overlay the build reads /repo
+# directly.
 set -eu
 cd "$(dirname "$(readlink -f "$0")")/../.."
+ROOT="$PWD"
+REPO=/repo
+MODFLAGS=()
+for f in ${GOFLAGS:-}; do
+  case "$f" in
+    -overlay=*)
+      OV="${f#-overlay=}"
+      GOFLAGS="${GOFLAGS//$f/}" go run ./checks/c20/ovtree "$OV" "$REPO" "$ROOT/.work/c20-src" "$ROOT/go.mod"
+      MODFLAGS=(-modfile="$ROOT/.work/c20-src/go.mod")
+      ;;
+  esac
+done
 STD=strings,bytes,regexp,regexp/syntax,strconv,fmt,sort,slices,unicode,unicode/utf8,bufio,encoding/json
-go build -cover -covermode=atomic \
+go build -cover -covermode=atomic "${MODFLAGS[@]}" \
   -coverpkg=verif/cmd/c20,verif/checks/c20/calib,github.com/ajitpratap0/GoSQLX/pkg/...,$STD \
   -o .work/bin/c20.real.new ./cmd/c20 2> .work/build-c20.warn || { cat .work/build-c20.warn >&2; exit 1; }
 grep -v '^warning: no packages being built depend on matches' .work/build-c20.warn >&2 || true
